@@ -591,6 +591,7 @@ def efunCall (f : String) (args : List (Value R)) : Res (Value R) :=
   | "sizeof", [.str s] => .ok (.int s.length)
   | "sizeof", [_] => .ok (.int 0)
   | "strlen", [.str s] => .ok (.int s.length)
+  | "copy", [v] => .ok v                               -- by value a (deep) copy is the value itself; its identity is new
   | "allocate_mapping", [.int _] => .ok (.map [])     -- presizing is not observable
   | "#if", [v] => .ok v          -- value of a preprocessor condition (64-bit integers in the reference semantics)
   | "allocate", [.int n] => if 0 ≤ n ∧ n ≤ 15000 then .ok (.arr (List.replicate n.toNat (.int 0))) else .err
